@@ -413,6 +413,10 @@ pub fn check_terminal(events: &[StepEvent], xs: &crate::props::c13::XStd) -> Res
         (StepOutcome::Unbounded, other) => {
             if matches!(relaxed, Some(LpAnswer::Unbounded { .. })) {
                 Ok("terminal-unbounded-within-tolerance-band")
+            } else if matches!(&relaxed, Some(LpAnswer::Optimal { x, .. }) if huge(x)) {
+                // two rows that are parallel up to the rounding of 0.3 (the second is -0.3 times the first): in exact
+                // arithmetic they meet in one point, within the 1e-6 band the improving direction only closes beyond 1e6
+                Ok("ill-conditioned(relaxed optimum beyond 1e6)")
             } else if matches!(other, LpAnswer::Infeasible) && !phase1 {
                 Ok("phase2-on-tolerance-feasible-problem")
             } else {
